@@ -1,1 +1,337 @@
-From Coq Require Import ZArith List.
+(* C16: totality, bounds and error positions of the whole parser.
+   For every byte list s, [parse s] (the model run on s ++ [0] with fuel 2*|s|+4)
+   - is never [Fuel]  (terminates),
+   - is never [Oob]   (no read from the empty list, i.e. nothing beyond the terminator),
+   - and when it is [Syn l c _], (l, c) is the line/column of an offset 0..|s| of s. *)
+From Coq Require Import ZArith List Bool Lia.
+From Xml Require Import Gen_Xml XmlSpec XmlModel XmlProofsScan.
+Import ListNotations.
+Local Open Scope Z_scope.
+Local Open Scope bool_scope.
+
+Definition adv_good {A} (text r0 : list Z) (x : res (A * pos)) : Prop :=
+  match x with
+  | Ok (_, q) => Inv text q /\ suffix (rest q) r0 /\ (length (rest q) < length r0)%nat
+  | Syn l c _ => ErrAt text l c
+  | Oob => False
+  | Fuel => False
+  end.
+
+Lemma adv_good_mono : forall A text r1 r0 (x : res (A * pos)),
+  adv_good text r1 x -> suffix r1 r0 -> adv_good text r0 x.
+Proof.
+  intros A text r1 r0 [[a q]| | |] G S; cbn [adv_good] in *; try tauto.
+  destruct G as (I & Sq & L). split; [exact I|]. split; [exact (suffix_trans _ _ _ Sq S)|].
+  apply suffix_len in S. lia.
+Qed.
+
+Lemma tok_adv : forall text r0 tk q, tok_good text r0 (Ok (tk, q)) ->
+  Inv text (tpos tk) /\ Inv text q /\ suffix (rest q) r0 /\ (length (rest q) < length r0)%nat.
+Proof. intros. exact H. Qed.
+
+Ltac rt_case text p HI tk q Gt :=
+  let G := fresh "G" in
+  pose proof (readToken_ok text p HI) as G;
+  destruct (readToken p) as [[tk q]| | |]; cbn [bind tok_good] in G |- *;
+  [destruct G as Gt| exact G | exact G | exact G].
+
+(* ---- attributes --------------------------------------------------------------------------- *)
+
+Lemma parseAttrs_ok : forall text f acc p, Inv text p -> (length (rest p) <= f)%nat ->
+  adv_good text (rest p) (parseAttrs f acc p).
+Proof.
+  intros text. induction f as [|f IH]; intros acc p HI Hf.
+  { pose proof (inv_in0 _ _ HI) as H0. destruct (rest p); [exfalso; exact H0|cbn [length] in Hf; lia]. }
+  cbn [parseAttrs].
+  pose proof (readToken_ok text p HI) as G.
+  destruct (readToken p) as [[tk q]| | |]; cbn [bind tok_good adv_good] in G |- *; try exact G.
+  destruct G as (Itk & Iq & Sq & Lq).
+  assert (Hloop : forall acc', adv_good text (rest p) (parseAttrs f acc' q)).
+  { intros acc'. apply (adv_good_mono _ _ (rest q)); [|exact Sq]. apply IH; [exact Iq|lia]. }
+  assert (Hdone : forall (ae : attrs_end), adv_good text (rest p) (Ok (ae, acc, q))).
+  { intros ae. cbn [adv_good]. tauto. }
+  destruct (tty tk); try apply Hloop; try apply Hdone.
+  (* a name: '=' and a string must follow *)
+  pose proof (readToken_ok text q Iq) as G1.
+  destruct (readToken q) as [[tk1 q1]| | |]; cbn [bind tok_good adv_good] in G1 |- *; try exact G1.
+  destruct G1 as (Itk1 & Iq1 & Sq1 & Lq1).
+  assert (E1 : adv_good text (rest p) (@synAt (attrs_end * list (bytes * bytes) * pos) (tpos tk1) EExpEq)).
+  { unfold synAt. cbn [adv_good]. apply errat_of. exact Itk1. }
+  destruct (tty tk1); try exact E1.
+  pose proof (readToken_ok text q1 Iq1) as G2.
+  destruct (readToken q1) as [[tk2 q2]| | |]; cbn [bind tok_good adv_good] in G2 |- *; try exact G2.
+  destruct G2 as (Itk2 & Iq2 & Sq2 & Lq2).
+  assert (E2 : adv_good text (rest p) (@synAt (attrs_end * list (bytes * bytes) * pos) (tpos tk2) EExpString)).
+  { unfold synAt. cbn [adv_good]. apply errat_of. exact Itk2. }
+  destruct (tty tk2); try exact E2.
+  apply (adv_good_mono _ _ (rest q2)).
+  - apply IH; [exact Iq2|lia].
+  - exact (suffix_trans _ _ _ Sq2 (suffix_trans _ _ _ Sq1 Sq)).
+Qed.
+
+(* ---- end tag ------------------------------------------------------------------------------ *)
+
+Definition pos_good (text r0 : list Z) (x : res pos) : Prop :=
+  match x with
+  | Ok q => Inv text q /\ suffix (rest q) r0 /\ (length (rest q) < length r0)%nat
+  | Syn l c _ => ErrAt text l c
+  | Oob => False
+  | Fuel => False
+  end.
+
+Lemma closeTag_ok : forall text nm p, Inv text p -> pos_good text (rest p) (closeTag nm p).
+Proof.
+  intros text nm p HI. unfold closeTag.
+  pose proof (readToken_ok text p HI) as G.
+  destruct (readToken p) as [[tk q]| | |]; cbn [bind tok_good pos_good] in G |- *; try exact G.
+  destruct G as (Itk & Iq & Sq & Lq).
+  assert (E0 : forall m, pos_good text (rest p) (@synAt pos (tpos tk) m)).
+  { intros m. unfold synAt. cbn [pos_good]. apply errat_of. exact Itk. }
+  destruct (tty tk); try apply E0.
+  destruct (negb (list_eqb (tval tk) nm)); [apply E0|].
+  pose proof (readToken_ok text q Iq) as G1.
+  destruct (readToken q) as [[tk1 q1]| | |]; cbn [bind tok_good pos_good] in G1 |- *; try exact G1.
+  destruct G1 as (Itk1 & Iq1 & Sq1 & Lq1).
+  assert (E1 : pos_good text (rest p) (@synAt pos (tpos tk1) EExpGt)).
+  { unfold synAt. cbn [pos_good]. apply errat_of. exact Itk1. }
+  destruct (tty tk1); try exact E1.
+  cbn [pos_good]. split; [exact Iq1|]. split; [exact (suffix_trans _ _ _ Sq1 Sq)|lia].
+Qed.
+
+(* ---- elements and content ----------------------------------------------------------------- *)
+
+Lemma parse_rec_ok : forall text f,
+  (forall tp p, Inv text p -> (2 * length (rest p) + 1 <= f)%nat -> adv_good text (rest p) (parseElement f tp p)) /\
+  (forall acc p, Inv text p -> (2 * length (rest p) + 2 <= f)%nat -> adv_good text (rest p) (parseContent f acc p)).
+Proof.
+  intros text. induction f as [|f [IHe IHc]].
+  { split; intros; lia. }
+  split.
+  - intros tp p HI Hf. cbn [parseElement].
+    pose proof (readToken_ok text p HI) as G.
+    destruct (readToken p) as [[tk q]| | |]; cbn [bind tok_good adv_good] in G |- *; try exact G.
+    destruct G as (Itk & Iq & Sq & Lq).
+    assert (E0 : adv_good text (rest p) (@synAt (node * pos) (tpos tk) EExpTagName)).
+    { unfold synAt. cbn [adv_good]. apply errat_of. exact Itk. }
+    destruct (tty tk); try exact E0.
+    pose proof (parseAttrs_ok text (length (rest q)) [] q Iq (le_n _)) as GA.
+    destruct (parseAttrs (length (rest q)) [] q) as [[[ae at_] q1]| | |]; cbn [bind adv_good] in GA |- *; try exact GA.
+    destruct GA as (Iq1 & Sq1 & Lq1).
+    destruct ae.
+    + cbn [adv_good]. split; [exact Iq1|]. split; [exact (suffix_trans _ _ _ Sq1 Sq)|lia].
+    + pose proof (IHc [] q1 Iq1) as GC.
+      assert (Hb : (2 * length (rest q1) + 2 <= f)%nat) by lia.
+      specialize (GC Hb).
+      destruct (parseContent f [] q1) as [[ct q2]| | |]; cbn [bind adv_good] in GC |- *; try exact GC.
+      destruct GC as (Iq2 & Sq2 & Lq2).
+      pose proof (closeTag_ok text (tval tk) q2 Iq2) as GT.
+      destruct (closeTag (tval tk) q2) as [q3| | |]; cbn [bind pos_good adv_good] in GT |- *; try exact GT.
+      destruct GT as (Iq3 & Sq3 & Lq3).
+      split; [exact Iq3|]. split.
+      * exact (suffix_trans _ _ _ Sq3 (suffix_trans _ _ _ Sq2 (suffix_trans _ _ _ Sq1 Sq))).
+      * lia.
+  - intros acc p HI Hf. cbn [parseContent].
+    (* the text branch *)
+    assert (Htext : (match readToken p with Ok (tk, _) => tty tk <> TStart /\ tty tk <> TEndBegin | _ => True end) ->
+              adv_good text (rest p) (do x <- parseText p; parseContent f (T (fst x) :: acc) (snd x))).
+    { intros Hla. pose proof (parseText_ok text p HI Hla) as GT.
+      destruct (parseText p) as [[t q]| | |]; cbn [bind adv_good fst snd] in GT |- *; try exact GT.
+      destruct GT as (Iq & Sq & Lq).
+      apply (adv_good_mono _ _ (rest q)); [|exact Sq]. apply IHc; [exact Iq|lia]. }
+    pose proof (readToken_ok text p HI) as G.
+    destruct (readToken p) as [[tk q]| | |] eqn:ERT; cbn [tok_good] in G; try exact G.
+    + destruct G as (Itk & Iq & Sq & Lq).
+      destruct (tty tk) eqn:Ety; try (apply Htext; split; congruence).
+      * (* child element *)
+        pose proof (IHe (tpos tk) q Iq) as GE.
+        assert (Hb : (2 * length (rest q) + 1 <= f)%nat) by lia.
+        specialize (GE Hb).
+        destruct (parseElement f (tpos tk) q) as [[e q1]| | |]; cbn [bind adv_good fst snd] in GE |- *; try exact GE.
+        destruct GE as (Iq1 & Sq1 & Lq1).
+        apply (adv_good_mono _ _ (rest q1)); [|exact (suffix_trans _ _ _ Sq1 Sq)].
+        apply IHc; [exact Iq1|lia].
+      * (* "</" *)
+        cbn [adv_good]. tauto.
+    + apply Htext. exact I.
+Qed.
+
+(* ---- prolog ------------------------------------------------------------------------------- *)
+
+Lemma pi_stop_cases : forall e, pi_stop e = true -> e = 13 \/ e = 10 \/ e = 63.
+Proof.
+  intros e H. unfold pi_stop in H. apply orb_prop in H. destruct H as [H|H].
+  - apply orb_prop in H. destruct H as [H|H]; zb; auto.
+  - zb. auto.
+Qed.
+
+Lemma pi_stop_plain : forall a, Forall (fun x => x <> 0 /\ pi_stop x = false) a -> Forall plain a.
+Proof.
+  intros a F. eapply Forall_impl; [|exact F]. intros x [H0 Hs]. unfold plain. split; [exact H0|].
+  unfold pi_stop in Hs. apply orb_false_elim in Hs. destruct Hs as [Hs _]. apply orb_false_elim in Hs.
+  destruct Hs as [H13 H10]. zb. tauto.
+Qed.
+
+Lemma piBody_ok : forall text f start p, Inv text start -> Inv text p -> (length (rest p) <= f)%nat ->
+  pos_good text (rest p) (piBody f start p).
+Proof.
+  intros text. induction f as [|f IH]; intros start p Is HI Hf.
+  { pose proof (inv_in0 _ _ HI) as H0. destruct (rest p); [exfalso; exact H0|cbn [length] in Hf; lia]. }
+  cbn [piBody].
+  destruct (scan_ok pi_stop (rest p) (inv_in0 _ _ HI)) as (a & e & b & S & R & F & C & I0).
+  rewrite S.
+  pose proof (pi_stop_plain _ F) as Fp.
+  destruct (e =? 0) eqn:E0.
+  { unfold synAt. cbn [pos_good]. apply errat_of. exact Is. }
+  zb. destruct C as [C|C]; [contradiction|].
+  assert (H0b : In 0 b) by (apply (in0_tail _ _ I0); assumption).
+  (* continue after skipSpace from a cursor q0 inside rest p *)
+  assert (Hcont : forall q0, Inv text q0 -> suffix (rest q0) (rest p) ->
+            ((length (rest q0) < length (rest p))%nat \/ (match rest q0 with c :: _ => is_space c = true | [] => False end)) ->
+            pos_good text (rest p) (do q <- skipSpace q0; piBody f start q)).
+  { intros q0 I0' S0 Hprog.
+    destruct (skipSpace_ok text q0 I0') as (q & Eq & Iq & Sq). rewrite Eq. cbn [bind].
+    assert (Lq : (length (rest q) < length (rest p))%nat).
+    { destruct Hprog as [Hl|Hs].
+      - apply suffix_len in Sq. lia.
+      - destruct (Nat.eq_dec (length (rest q)) (length (rest q0))) as [Le|Lne].
+        + exfalso. pose proof (suffix_len_eq _ _ Sq Le) as Req.
+          unfold skipSpace in Eq. pose proof (skipSp_stop _ _ _ _ _ _ (le_n _) Eq) as St.
+          rewrite Req in St. destruct (rest q0); [exact Hs|congruence].
+        + apply suffix_len in Sq. apply suffix_len in S0. lia. }
+    pose proof (IH start q Is Iq) as G. assert (Hb : (length (rest q) <= f)%nat) by lia. specialize (G Hb).
+    destruct (piBody f start q) as [q'| | |]; cbn [pos_good] in G |- *; try exact G.
+    destruct G as (A & B & L). split; [exact A|]. split; [exact (suffix_trans _ _ _ B (suffix_trans _ _ _ Sq S0))|lia]. }
+  destruct (e =? 63) eqn:E63.
+  - zb. subst e. destruct b as [|e1 r4]; [exfalso; exact H0b|].
+    destruct (e1 =? 62) eqn:E62.
+    + zb. subst e1. cbn [pos_good]. split.
+      * replace (zlen a + 2) with (zlen (a ++ [63; 62])) by (rewrite zlen_app; reflexivity).
+        apply (adv_inv_many text p (a ++ [63; 62]) r4); [exact HI| |].
+        -- rewrite R. rewrite <- app_assoc. reflexivity.
+        -- apply Forall_app. split; [exact Fp|]. repeat constructor; discriminate.
+      * cbn [adv rest]. rewrite R. split.
+        -- exists (a ++ [63; 62]). rewrite <- app_assoc. reflexivity.
+        -- rewrite app_length. cbn [length]. lia.
+    + apply Hcont.
+      * replace (zlen a + 1) with (zlen (a ++ [63])) by (rewrite zlen_app; reflexivity).
+        apply (adv_inv_many text p (a ++ [63]) (e1 :: r4)); [exact HI| |].
+        -- rewrite R. rewrite <- app_assoc. reflexivity.
+        -- apply Forall_app. split; [exact Fp|]. repeat constructor; discriminate.
+      * cbn [adv rest]. rewrite R. exists (a ++ [63]). rewrite <- app_assoc. reflexivity.
+      * left. cbn [adv rest]. rewrite R. rewrite app_length. cbn [length]. lia.
+  - zb. apply Hcont.
+    + apply (adv_inv_many text p a (e :: b)); [exact HI|exact R|exact Fp].
+    + cbn [adv rest]. rewrite R. apply suffix_app.
+    + right. cbn [adv rest]. destruct (pi_stop_cases _ C) as [X|[X|X]]; subst e; try reflexivity. contradiction.
+Qed.
+
+Definition pos_ok (text r0 : list Z) (x : res pos) : Prop :=
+  match x with
+  | Ok q => Inv text q /\ suffix (rest q) r0
+  | Syn l c _ => ErrAt text l c
+  | Oob => False
+  | Fuel => False
+  end.
+
+Lemma prolog_ok : forall text f p, Inv text p -> (length (rest p) <= f)%nat -> pos_ok text (rest p) (prolog f p).
+Proof.
+  intros text. induction f as [|f IH]; intros p HI Hf.
+  { pose proof (inv_in0 _ _ HI) as H0. destruct (rest p); [exfalso; exact H0|cbn [length] in Hf; lia]. }
+  cbn [prolog].
+  pose proof (inv_in0 _ _ HI) as H0.
+  destruct (rest p) as [|c r1] eqn:Rp; [exfalso; exact H0|].
+  assert (Hstay : pos_ok text (c :: r1) (Ok p)).
+  { cbn [pos_ok]. split; [exact HI|]. rewrite Rp. apply suffix_refl. }
+  destruct (c =? 60) eqn:E60; [|exact Hstay]. zb. subst c.
+  assert (H0' : In 0 r1) by (apply (in0_tail _ _ H0); discriminate).
+  destruct r1 as [|c1 r2]; [exfalso; exact H0'|].
+  destruct (c1 =? 63) eqn:E63; [|exact Hstay]. zb. subst c1.
+  assert (Ia : Inv text (adv p 2 r2)).
+  { apply (adv_inv_many text p [60; 63] r2); [exact HI|exact Rp|]. repeat constructor; discriminate. }
+  pose proof (piBody_ok text (length r2) p (adv p 2 r2) HI Ia (le_n _)) as G.
+  cbn [adv rest] in G.
+  destruct (piBody (length r2) p (adv p 2 r2)) as [q| | |]; cbn [bind pos_good pos_ok] in G |- *; try exact G.
+  destruct G as (Iq & Sq & Lq).
+  destruct (skipSpace_ok text q Iq) as (q1 & Eq1 & Iq1 & Sq1). rewrite Eq1. cbn [bind].
+  pose proof (IH q1 Iq1) as G1.
+  assert (Hb : (length (rest q1) <= f)%nat).
+  { apply suffix_len in Sq1. cbn [length] in Hf. lia. }
+  specialize (G1 Hb).
+  destruct (prolog f q1) as [q2| | |]; cbn [pos_ok] in G1 |- *; try exact G1.
+  destruct G1 as (Iq2 & Sq2). split; [exact Iq2|].
+  apply (suffix_trans _ _ _ Sq2). apply (suffix_trans _ _ _ Sq1). apply (suffix_trans _ _ _ Sq).
+  exists [60; 63]. reflexivity.
+Qed.
+
+(* ---- the whole parser --------------------------------------------------------------------- *)
+
+Definition res_good {A} (text : list Z) (x : res A) : Prop :=
+  match x with Ok _ => True | Syn l c _ => ErrAt text l c | Oob => False | Fuel => False end.
+
+Lemma inv_start : forall s, Inv (s ++ [0]) (mkPos (s ++ [0]) 0 1 0).
+Proof.
+  intros s. exists [], false. cbn [rest off line ls]. repeat split; try reflexivity; [discriminate|].
+  apply in_or_app. right. left. reflexivity.
+Qed.
+
+Lemma parseFrom_ok : forall s f, (2 * length s + 1 <= f)%nat -> res_good (s ++ [0]) (parseFrom f (s ++ [0])).
+Proof.
+  intros s f Hf. unfold parseFrom. set (text := s ++ [0]).
+  pose proof (inv_start s) as I0. fold text in I0.
+  destruct (skipSpace_ok text _ I0) as (p0 & E0 & Ip0 & Sp0). rewrite E0. cbn [bind].
+  cbn [rest] in Sp0.
+  pose proof (prolog_ok text (length text) p0 Ip0 (suffix_len _ _ Sp0)) as G.
+  destruct (prolog (length text) p0) as [p1| | |]; cbn [bind pos_ok res_good] in G |- *; try exact G.
+  destruct G as (Ip1 & Sp1).
+  pose proof (readToken_ok text p1 Ip1) as GT.
+  destruct (readToken p1) as [[tk q]| | |]; cbn [bind tok_good res_good] in GT |- *; try exact GT.
+  destruct GT as (Itk & Iq & Sq & Lq).
+  assert (E1 : res_good text (@synAt node (tpos tk) EExpLt)).
+  { unfold synAt. cbn [res_good]. apply errat_of. exact Itk. }
+  destruct (tty tk); try exact E1.
+  destruct (parse_rec_ok text f) as [He _].
+  pose proof (He (tpos tk) q Iq) as GE.
+  assert (Hb : (2 * length (rest q) + 1 <= f)%nat).
+  { apply suffix_len in Sp1. apply suffix_len in Sp0. unfold text in Sp0. rewrite app_length in Sp0. cbn [length] in Sp0. lia. }
+  specialize (GE Hb).
+  destruct (parseElement f (tpos tk) q) as [[e q1]| | |]; cbn [bind adv_good res_good] in GE |- *; try exact GE.
+  exact I.
+Qed.
+
+(* (line, column) of a cursor that satisfies the invariant is the position of an offset of s *)
+Lemma errat_inside : forall s l c, ErrAt (s ++ [0]) l c -> inside_text s l c.
+Proof.
+  intros s l c (p & (pre & cr & Ht & Ho & Hlc & _ & H0) & Hl & Hc).
+  assert (Hne : rest p <> []) by (apply in0_nonnil; exact H0).
+  destruct (exists_last Hne) as (r' & y & Hr).
+  rewrite Hr in Ht. rewrite app_assoc in Ht. apply app_inj_tail in Ht. destruct Ht as [Hs _].
+  exists (length pre). split.
+  - rewrite Hs. rewrite app_length. lia.
+  - rewrite Hs. rewrite firstn_app, Nat.sub_diag, firstn_all. cbn [firstn]. rewrite app_nil_r.
+    unfold linecol. rewrite Hlc. subst l c. reflexivity.
+Qed.
+
+Lemma parse_total_safe : forall s,
+  match parse s with
+  | Ok _ => True
+  | Syn l c _ => inside_text s l c
+  | Oob => False
+  | Fuel => False
+  end.
+Proof.
+  intros s. unfold parse.
+  pose proof (parseFrom_ok s (fuel_for s)) as G.
+  assert (Hf : (2 * length s + 1 <= fuel_for s)%nat) by (unfold fuel_for; lia).
+  specialize (G Hf).
+  destruct (parseFrom (fuel_for s) (s ++ [0])); cbn [res_good] in G; try exact G.
+  apply errat_inside. exact G.
+Qed.
+
+Lemma parse_terminates : forall s, parse s <> Fuel.
+Proof. intros s H. pose proof (parse_total_safe s) as G. rewrite H in G. exact G. Qed.
+
+Lemma parse_in_bounds : forall s, parse s <> Oob.
+Proof. intros s H. pose proof (parse_total_safe s) as G. rewrite H in G. exact G. Qed.
+
+Lemma parse_error_inside : forall s l c m, parse s = Syn l c m -> inside_text s l c.
+Proof. intros s l c m H. pose proof (parse_total_safe s) as G. rewrite H in G. exact G. Qed.
